@@ -10,21 +10,35 @@ fn main() {
     let path = std::env::args().nth(1).expect("usage: pico_hist_miri <file>");
     let text = std::fs::read_to_string(&path).expect("read histories");
     let mut n = 0;
+    let mut opts = interp::Options::default();
     for (i, line) in text.lines().enumerate() {
         let line = line.trim();
         if line.is_empty() {
+            continue;
+        }
+        // `#exclude <switch>`: the known-finding exclusion switches of the native run
+        if let Some(rest) = line.strip_prefix("#exclude ") {
+            match rest.trim() {
+                "absent_singleton_read" => opts.exclude_absent_singleton_read = true,
+                "equal_value_write" => opts.exclude_equal_value_write = true,
+                "second_intern_owner" => opts.exclude_second_intern_owner = true,
+                _ => {
+                    println!("BAD-LINE {i}");
+                    std::process::exit(3);
+                }
+            }
             continue;
         }
         let Some((cap, ops)) = interp::decode_history(line) else {
             println!("BAD-LINE {i}");
             std::process::exit(3);
         };
-        println!("BEGIN {i}");
-        let out = interp::run_history(cap, &ops, &interp::Options::default());
+        println!("BEGIN {n}");
+        let out = interp::run_history(cap, &ops, &opts);
         if let Some(f) = out.failure {
-            println!("FAIL {i} {} {} :: step {}: {}", f.class, f.signature, f.step, f.message.replace('\n', " "));
+            println!("FAIL {n} {} {} :: step {}: {}", f.class, f.signature, f.step, f.message.replace('\n', " "));
         }
-        println!("END {i} executed_ops={} lookups={}", out.executed_ops, out.lookups_checked);
+        println!("END {n} executed_ops={} lookups={}", out.executed_ops, out.lookups_checked);
         n += 1;
     }
     println!("DONE {n}");
